@@ -193,7 +193,7 @@ def w1_concurrent_calls(col, rng, cidx, jobref):
             with lock:
                 calls.setdefault(me, []).append((opid, a, refs[t][k], r))
 
-    ths = [threading.Thread(target=worker, args=(t,)) for t in range(nthreads)]
+    ths = [threading.Thread(target=worker, args=(t,), name="twz-client") for t in range(nthreads)]
     for t in ths:
         t.start()
     for t in ths:
@@ -213,6 +213,7 @@ def w1_concurrent_calls(col, rng, cidx, jobref):
             elif not same(ref[1].result, r[1]):
                 col.violation(pid, "concurrent_call_got_result_for_other_arguments_or_wrong_value", dict(
                     expected=short(ref[1].result, 300), got=short(r[1], 300), threads=nthreads, source=S.render(sp)), rp)
+    col.generic(log, rp)
     for case in per_token_cases(log, sp, d, plain, calls):
         viol, st, _v = sched.check_all(case)
         col.counters["c16_per_execution_monitor_runs"] += 1
@@ -297,7 +298,10 @@ def w2_build_overlap(col, rng, cidx, jobref):
 
     B.reset_log()
     probes.reset_counts()
-    ta, tb, tc = threading.Thread(target=thread_a), threading.Thread(target=thread_b), threading.Thread(target=thread_c)
+    # thread names are not unique in Python: half of the cases give all three threads the same name
+    nm = (lambda k: "twz-client") if rng.random() < 0.5 else (lambda k: "twz-client-%s" % k)
+    ta, tb, tc = (threading.Thread(target=thread_a, name=nm("a")), threading.Thread(target=thread_b, name=nm("b")),
+                  threading.Thread(target=thread_c, name=nm("c")))
     ta.start()
     tb.start()
     tc.start()
@@ -372,7 +376,7 @@ def w3_concurrent_builds(col, rng, cidx, jobref):
         out[t] = res
 
     try:
-        ths = [threading.Thread(target=worker, args=(t,)) for t in range(nthreads)]
+        ths = [threading.Thread(target=worker, args=(t,), name="twz-client") for t in range(nthreads)]
         for t in ths:
             t.start()
         for t in ths:
@@ -554,6 +558,7 @@ def a17_case(col, rng, cidx, jobref):
 
     res = probes.run_op("gather", lambda: asyncio.run(many()))
     log = B.snapshot()
+    col.generic(log, rp)
     col.evaluations += 1
     col.counters["c17_gathers"] += 1
     if res[0] != "ok":
